@@ -183,26 +183,26 @@ Definition in_model (ts : list tok) : bool := forallb tok_in_model ts.
 (* ---------- matching "^" tokens "$" against a whole string ---------- *)
 (* [^/]* then f *)
 Fixpoint star_go (f : str -> bool) (s : str) : bool :=
-  f s || match s with x :: r => negb (Ascii.eqb x slash) && star_go f r | [] => false end.
+  f s ||| match s with x :: r => negb (Ascii.eqb x slash) &&& star_go f r | [] => false end.
 (* .* then "/" then f   ("." does not match a newline) *)
 Fixpoint dss_go (f : str -> bool) (s : str) : bool :=
   match s with
   | [] => false
-  | x :: r => (Ascii.eqb x slash && f r) || (negb (Ascii.eqb x nl) && dss_go f r)
+  | x :: r => (Ascii.eqb x slash &&& f r) ||| (negb (Ascii.eqb x nl) &&& dss_go f r)
   end.
 (* .* then f *)
 Fixpoint dse_go (f : str -> bool) (s : str) : bool :=
-  f s || match s with x :: r => negb (Ascii.eqb x nl) && dse_go f r | [] => false end.
+  f s ||| match s with x :: r => negb (Ascii.eqb x nl) &&& dse_go f r | [] => false end.
 
 Fixpoint tmatch (ts : list tok) : str -> bool :=
   match ts with
   | [] => fun s => is_empty s
   | TLit c :: ts' | TEsc c :: ts' =>
-      fun s => match s with x :: r => Ascii.eqb x c && tmatch ts' r | [] => false end
+      fun s => match s with x :: r => Ascii.eqb x c &&& tmatch ts' r | [] => false end
   | TQ :: ts' =>
-      fun s => match s with x :: r => negb (Ascii.eqb x slash) && tmatch ts' r | [] => false end
+      fun s => match s with x :: r => negb (Ascii.eqb x slash) &&& tmatch ts' r | [] => false end
   | TStar :: ts' => star_go (tmatch ts')
-  | TDSS :: ts' => fun s => tmatch ts' s || dss_go (tmatch ts') s
+  | TDSS :: ts' => fun s => tmatch ts' s ||| dss_go (tmatch ts') s
   | TDSE :: ts' => dse_go (tmatch ts')
   | TBslashEnd :: _ => fun _ => false
   end.
